@@ -289,6 +289,34 @@ theorem lookupKey_total {autos : List (α × Nat)} {a : α} (h : ∃ q ∈ autos
     exact absurd hqa ((lookupFrom_none autos a 0).1 hl q hq)
   | some r => exact ⟨r, rfl⟩
 
+theorem autoPos_ok {cps : List (α × α)} {a : α} {p : Nat} (h : autoPos cps a = .ok p) :
+    cps[p]? = some (a, a) := by
+  unfold autoPos at h
+  cases hf : cps.findIdx? (fun p => p.1 = a ∧ p.2 = a) with
+  | none => simp only [hf] at h; cases h
+  | some q =>
+    simp only [hf, Except.ok.injEq] at h
+    subst h
+    rw [List.findIdx?_eq_some_iff_getElem] at hf
+    obtain ⟨hlt, hp, _⟩ := hf
+    simp only [decide_eq_true_eq] at hp
+    rw [List.getElem?_eq_getElem hlt]
+    congr 1
+    exact Prod.ext hp.1 hp.2
+
+theorem autoPos_error {cps : List (α × α)} {a : α} {e : Err} (h : autoPos cps a = .error e) :
+    e = .key ∧ ∀ p : Nat, cps[p]? ≠ some (a, a) := by
+  unfold autoPos at h
+  cases hf : cps.findIdx? (fun p => p.1 = a ∧ p.2 = a) with
+  | some q => simp only [hf] at h; cases h
+  | none =>
+    simp only [hf, Except.error.injEq] at h
+    refine ⟨h.symm, ?_⟩
+    intro p hp
+    rw [List.findIdx?_eq_none_iff] at hf
+    have := hf (a, a) (List.mem_of_getElem? hp)
+    simp at this
+
 end lookup
 
 /-! ### weight_power_scale -/
@@ -352,6 +380,36 @@ theorem scaleRow_total (bad : K) (divide : Bool) (ai i1 i2 : List Nat) (visRe wR
   rw [e1, e2, e3]
   simp only [getNat_of_lt b1, getNat_of_lt b2]
   exact ⟨_, rfl⟩
+
+/-- the spec row, element by element: documented kernel on autocorrelations found by label -/
+theorem weightsRowSpec_get {α} [DecidableEq α] (bad : K) (divide : Bool) (cps : List (α × α))
+    (visRe wRow out : List (Scalar K)) (h : weightsRowSpec bad divide cps visRe wRow = .ok out) :
+    out.length = cps.length ∧ wRow.length = cps.length ∧
+    ∀ (b : Nat) (x y : α) (w : Scalar K), cps[b]? = some (x, y) → wRow[b]? = some w →
+      ∃ (p1 p2 : Nat) (a1 a2 : Scalar K), cps[p1]? = some (x, x) ∧ cps[p2]? = some (y, y) ∧
+        visRe[p1]? = some a1 ∧ visRe[p2]? = some a2 ∧ out[b]? = some (kernelSpec bad divide a1 a2 w) := by
+  unfold weightsRowSpec at h
+  obtain ⟨h1, h2, hp⟩ := zipME_ok h
+  refine ⟨h1, h2, ?_⟩
+  intro b x y w hb hw
+  obtain ⟨z, hz, hf⟩ := hp b (x, y) w hb hw
+  unfold weightsElemSpec at hf
+  cases hp1 : autoPos cps x with
+  | error e => simp [hp1] at hf
+  | ok p1 =>
+    cases hp2 : autoPos cps y with
+    | error e => simp [hp1, hp2] at hf
+    | ok p2 =>
+      simp only [hp1, hp2] at hf
+      cases hv1 : getNat visRe p1 with
+      | error e => simp [hv1] at hf
+      | ok a1 =>
+        cases hv2 : getNat visRe p2 with
+        | error e => simp [hv1, hv2] at hf
+        | ok a2 =>
+          simp only [hv1, hv2, Except.ok.injEq] at hf
+          subst hf
+          exact ⟨p1, p2, a1, a2, autoPos_ok hp1, autoPos_ok hp2, getNat_ok.1 hv1, getNat_ok.1 hv2, hz⟩
 
 end wps
 
